@@ -472,6 +472,11 @@ impl SuffixArrayDictionary {
         }
 
         let sample_size = (data.len() as f64 * ratio) as usize;
+        if sample_size == 0 {
+            // A ratio of 0.0 (or one that rounds down to no byte at all) selects nothing;
+            // dividing by the sample size below would panic
+            return Vec::new();
+        }
         let step = data.len() / sample_size;
         
         let mut sampled = Vec::with_capacity(sample_size);
